@@ -126,7 +126,7 @@ package tokenizers
 //@ interface ITokenizer.TokenizeBuffer(self, buffer)
 //@   requires self != nil
 //@   ensures[C03] fresh(result) && (forall i int :: 0 <= i && i < len(result) ==> result[i] != nil && allocated(result[i]))
-//@   assigns any(AbstractTokenizer).Scanner, any(AbstractTokenizer).NextTokenValue, any(AbstractTokenizer).LastTokenType, any(tokenizers.MustacheTokenizer).special, any(tokenizers.MustacheTokenizer).lastReader
+//@   assigns any(AbstractTokenizer).Scanner, any(AbstractTokenizer).NextTokenValue, any(AbstractTokenizer).LastTokenType, any(tokenizers.MustacheTokenizer).special, any(tokenizers.MustacheTokenizer).lastReader, any(tokenizers.MustacheTokenizer).tagStart, any(tokenizers.MustacheTokenizer).comment
 //@   nopanic
 
 // ---- the tokenizer loop (C03: tokenizing terminates and returns normally) ------------------------------------------
@@ -147,7 +147,7 @@ package tokenizers
 //@   ensures[C03] result != nil && result.typ == Eof ==> old(absOf(self).LastTokenType) != Eof && absOf(self).LastTokenType == Eof
 //@   ensures[C03] result == nil && absOf(self).Scanner != nil ==> absOf(self).LastTokenType == Eof
 //@   assigns absOf(self).LastTokenType, sc(absOf(self).Scanner).position, sc(absOf(self).Scanner).line, sc(absOf(self).Scanner).column,
-//@       any(tokenizers.MustacheTokenizer).special, any(tokenizers.MustacheTokenizer).lastReader
+//@       any(tokenizers.MustacheTokenizer).special, any(tokenizers.MustacheTokenizer).lastReader, any(tokenizers.MustacheTokenizer).tagStart, any(tokenizers.MustacheTokenizer).comment
 //@   nopanic
 //
 //@ func (c *AbstractTokenizer) NextToken
@@ -159,7 +159,7 @@ package tokenizers
 //@   ensures[C03] old(c.NextTokenValue) == nil && result != nil && result.typ == Eof ==> old(c.LastTokenType) != Eof && c.LastTokenType == Eof
 //@   ensures[C03,C05] old(c.NextTokenValue) != nil ==> result == old(c.NextTokenValue) && c.LastTokenType == old(c.LastTokenType)
 //@   ensures[C03] old(c.NextTokenValue) == nil && result == nil && c.Scanner != nil ==> c.LastTokenType == Eof
-//@   assigns c.NextTokenValue, c.LastTokenType, sc(c.Scanner).position, sc(c.Scanner).line, sc(c.Scanner).column, any(tokenizers.MustacheTokenizer).special, any(tokenizers.MustacheTokenizer).lastReader
+//@   assigns c.NextTokenValue, c.LastTokenType, sc(c.Scanner).position, sc(c.Scanner).line, sc(c.Scanner).column, any(tokenizers.MustacheTokenizer).special, any(tokenizers.MustacheTokenizer).lastReader, any(tokenizers.MustacheTokenizer).tagStart, any(tokenizers.MustacheTokenizer).comment
 //@   nopanic
 //
 // "tokenizing with any built-in tokenizer terminate[s] and return[s] normally": measure = characters left, then whether
@@ -170,7 +170,7 @@ package tokenizers
 //@       (forall i int :: 0 <= i && i < len(sc(scanner).content) ==> scalar(sc(scanner).content[i]))
 //@   ensures[C03] forall i int :: 0 <= i && i < len(result) ==> result[i] != nil && allocated(result[i])
 //@   ensures[C03] fresh(result)
-//@   assigns c.Scanner, c.NextTokenValue, c.LastTokenType, sc(scanner).position, sc(scanner).line, sc(scanner).column, any(tokenizers.MustacheTokenizer).special, any(tokenizers.MustacheTokenizer).lastReader
+//@   assigns c.Scanner, c.NextTokenValue, c.LastTokenType, sc(scanner).position, sc(scanner).line, sc(scanner).column, any(tokenizers.MustacheTokenizer).special, any(tokenizers.MustacheTokenizer).lastReader, any(tokenizers.MustacheTokenizer).tagStart, any(tokenizers.MustacheTokenizer).comment
 //@   nopanic
 //@   loop 0
 //@     invariant ovOK(c) && tokInv(c) && c.Scanner == scanner && c.NextTokenValue == nil && sc(scanner).content == old(sc(scanner).content)
@@ -199,5 +199,5 @@ package tokenizers
 //@   ensures[C05] old(c.NextTokenValue) != nil ==> c.NextTokenValue == old(c.NextTokenValue) && c.LastTokenType == old(c.LastTokenType) &&
 //@       (c.Scanner != nil ==> sc(c.Scanner).position == old(sc(c.Scanner).position))
 //@   ensures[C05] c.NextTokenValue != nil ==> allocated(c.NextTokenValue)
-//@   assigns c.NextTokenValue, c.LastTokenType, sc(c.Scanner).position, sc(c.Scanner).line, sc(c.Scanner).column, any(tokenizers.MustacheTokenizer).special, any(tokenizers.MustacheTokenizer).lastReader
+//@   assigns c.NextTokenValue, c.LastTokenType, sc(c.Scanner).position, sc(c.Scanner).line, sc(c.Scanner).column, any(tokenizers.MustacheTokenizer).special, any(tokenizers.MustacheTokenizer).lastReader, any(tokenizers.MustacheTokenizer).tagStart, any(tokenizers.MustacheTokenizer).comment
 //@   nopanic
